@@ -35,6 +35,9 @@ func (f *Frame) call(bi *BInfo, c *ssa.CallCommon, site ssa.Value, resT types.Ty
 	case *ssa.Builtin:
 		return f.builtin(bi, fv, c, args, site)
 	case *ssa.Function:
+		if isWaitingExtern(fv) {
+			f.blockingHook(bi)
+		}
 		return f.staticCall(bi, fv, nil, args, argVals, resT)
 	case *ssa.MakeClosure:
 		if cl, ok := f.closures[fv]; ok {
@@ -749,4 +752,13 @@ func (f *Frame) applyCallSite(bi *BInfo, fn *ssa.Function, csc *FuncContract, na
 	}
 	g.assumeNote("call-site contract (assumed): %s in %s", name, fnDisplay(f.fn))
 	return res
+}
+
+// isWaitingExtern: library calls that wait for an unbounded (caller-chosen) time.
+func isWaitingExtern(fn *ssa.Function) bool {
+	switch fn.String() {
+	case "time.Sleep", "(*sync.WaitGroup).Wait", "(*sync.Cond).Wait":
+		return true
+	}
+	return false
 }
